@@ -506,3 +506,115 @@ Section CowOps.
       + cbv beta. split; auto.
   Qed.
 End CowOps.
+
+(* ------------------------------------------------------------------ *)
+(** * In-place assignment on any leaf attribute; deepcopy; steps *)
+Section MoreOps.
+  Variable ct : ctable.
+  Hypothesis Hflat : flat_table ct.
+  Hypothesis Hninv : no_inval_table ct.
+  Notation Inv := (Inv ct).
+
+  Definition recv_leafa (l : loc) (a : aid) (h : heap_t) : Prop :=
+    forall cl d k sp, nth_error h l = Some (OInst cl d) -> lookup_cls ct cl = Some k ->
+      lookup_attr k a = Some sp -> leaf_attr sp.
+
+  Lemma prepare_then_store_any rec' fuel l a sp v :
+    leaf_attr sp ->
+    T (fun h => Inv h /\ loose h v)
+      (value <- prepare_attr_value ct (exec ct fuel) sp l v None ;;
+       mutate_attr ct rec' l a value true true false false)
+      (fun _ h => Inv h) Inv.
+  Proof.
+    intro Hl. eapply T_bind.
+    - eapply T_conseq; [apply (prepare_attr_value_any ct Hflat fuel sp l v (fun _ => True) Hl cstable_true)| | |].
+      + intros h [I L]. split; [apply IF_true; exact I|exact L].
+      + intros r h H. exact H.
+      + intros h [I _]. exact I.
+    - intros value. eapply T_pre; [|apply (mutate_attr_inplace ct Hflat Hninv rec' l a value true)].
+      intros h [[I _] L]. split; auto. split; [left; exact L|discriminate].
+  Qed.
+
+  Lemma setattr_Inv_any fuel l a v :
+    T (fun h => Inv h /\ loose h v /\ recv_leafa l a h)
+      (setattr_ ct (exec ct fuel) l a v false false) (fun _ h => Inv h) Inv.
+  Proof.
+    unfold setattr_.
+    eapply T_bind; [apply T_read_inst; tauto|]. intros [cl d]. cbn [fst snd].
+    eapply T_bind; [apply T_cls_of; tauto|]. intros k.
+    intros s [[[I [L R]] N] Hk].
+    destruct (lookup_attr k a) as [sp|] eqn:Ha.
+    - apply (prepare_then_store_any (exec ct fuel) fuel l a sp v (R _ _ _ _ N Hk Ha) s). auto.
+    - rewrite bind_ret_l.
+      apply (mutate_attr_inplace ct Hflat Hninv (exec ct fuel) l a v true s).
+      split; auto. split; [left; exact L|discriminate].
+  Qed.
+
+  (* obj.a = v, a any leaf attribute (scalar or scalar collection) or unmanaged *)
+  Theorem step_setattr_any roots x a v s :
+    Inv (heap s) -> loose (heap s) v ->
+    (forall l, nth x roots VNone = VRef l -> recv_leafa l a (heap s)) ->
+    Inv (heap (snd (step ct roots (OpSetAttr x a v) s))).
+  Proof.
+    intros I L R. unfold step.
+    destruct (nth x roots VNone) as [| | | | | | | |l] eqn:Er; try exact I.
+    cbn [loc_of]. rewrite bind_ret_l.
+    eapply T_run_then with (P := fun h => Inv h /\ loose h v /\ recv_leafa l a h) (Q := fun _ h => Inv h) (E := Inv);
+      auto.
+    assert (Ex : exists f, XFUEL = S f) by (exists 39; reflexivity). destruct Ex as [f ->].
+    rewrite exec_S. apply setattr_Inv_any.
+  Qed.
+
+  Theorem step_with_inplace_any roots x a hh s :
+    Inv (heap s) -> loose (heap s) (pos0 hh) -> h_inplace hh = true -> h_kw hh = None ->
+    (forall l, nth x roots VNone = VRef l -> recv_leafa l a (heap s)) ->
+    Inv (heap (snd (step ct roots (OpHelper x (HWith a) hh) s))).
+  Proof.
+    intros I L Hin Hkw R. unfold step.
+    destruct (nth x roots VNone) as [| | | | | | | |l] eqn:Er; try exact I.
+    cbn [loc_of]. rewrite bind_ret_l. specialize (R l eq_refl).
+    unfold run_helper. destruct (negb (h_if hh)); [exact I|]. rewrite Hin, Hkw.
+    eapply T_run with (P := fun h => Inv h /\ loose h (pos0 hh) /\ recv_leafa l a h) (Q := fun _ h => Inv h) (E := Inv);
+      auto.
+    unfold spec_for.
+    eapply T_bind.
+    { eapply T_bind; [apply T_read_inst; tauto|]. intros [cl d]. cbn [fst snd].
+      eapply T_bind; [apply T_cls_of; tauto|]. intros k.
+      instantiate (1 := fun r h => (Inv h /\ loose h (pos0 hh)) /\ a_name (snd r) = a /\ leaf_attr (snd r)).
+      intros s0 [[[I0 [L0 R0]] N] Hk].
+      destruct (lookup_attr k a) as [sp|] eqn:Ha; simpl; auto.
+      split; auto. split; [eapply lookup_attr_name; eauto|eauto]. }
+    intros r. apply T_pull. intros [Hn Hl]. unfold with_attr. rewrite Hn.
+    apply (prepare_then_store_any (exec ct XFUEL) XFUEL l a (snd r) (pos0 hh) Hl).
+  Qed.
+
+  (* copy.deepcopy(obj): a flat instance, a container of non-references, a non-reference *)
+  Theorem deepcopy_flat v s :
+    Inv (heap s) ->
+    match v with
+    | VRef l => (exists cl d k, FI ct (heap s) l cl d k) \/
+                (exists o, nth_error (heap s) l = Some o /\ norefs o /\ shape o < 3)
+    | _ => True
+    end ->
+    Inv (heap (snd (deepcopy ct v s))).
+  Proof.
+    intros I Hv. unfold deepcopy.
+    destruct v as [| | | | | | | |l];
+      try (destruct FUEL_SS as [f Ef]; rewrite Ef; rewrite dc_nonref by (intros c E; discriminate); exact I).
+    destruct Hv as [(cl & d & k & Fi)|(o & No & Nr & So)].
+    - destruct FUEL_SSS as [f Ef]. rewrite Ef.
+      pose proof (dc_instance ct Hflat f l s cl d k I Fi) as DC. unfold bind.
+      destruct (dc ct (S (S (S f))) (VRef l) [] s) as [[r|e] s1].
+      + destruct DC as (new & d' & _ & _ & _ & I1 & _). exact I1.
+      + exact (proj2 DC).
+    - destruct FUEL_SS as [f Ef]. rewrite Ef.
+      pose proof (dc_container ct Hflat f l [] o (length (heap s)) (fun _ => True)
+                    (cstable_fstable _ _ cstable_true) Nr So eq_refl s) as DC.
+      assert (Pre : CP ct (fun _ => True) (length (heap s)) l o (heap s)).
+      { split; [split; auto|split; auto]. }
+      specialize (DC Pre). unfold bind.
+      destruct (dc ct (S (S f)) (VRef l) [] s) as [[r|e] s1].
+      + destruct DC as (((I1 & _) & _) & _). exact I1.
+      + exact (proj1 DC).
+  Qed.
+End MoreOps.
